@@ -70,13 +70,13 @@ Add(s, how) ==
 \* the index saved into s EARLIER - with the digests it recorded then - is hashed again (index md5) and saved again, after
 \* whatever was edited since: the files are re-hashed (no cheap checksum to go by on a local file system); an entry whose
 \* file no longer has the recorded digest is left out; nothing is ever filed under a digest recorded for other bytes
-Resave(s) ==
-    /\ Tick /\ saved[s] # NoSaved
+Resave(s, t) ==
+    /\ Tick /\ saved[s] # NoSaved /\ AlgOf[s] = AlgOf[t]        \* (saved again into s itself or into another store of its algorithm)
     /\ LET a == AlgOf[s]
            P == {p \in Paths : Staged(p, a) = saved[s][p]}
-       IN /\ AddPairs(s, {<<Staged(p, a), ws[p]>> : p \in P})
+       IN /\ AddPairs(t, {<<Staged(p, a), ws[p]>> : p \in P})
           /\ row' = [p \in Paths |-> [alg |-> a, d |-> Staged(p, a), c |-> ws[p]]]
-    /\ act' = [op |-> "Resave", s |-> s]
+    /\ act' = [op |-> "Resave", s |-> s, t |-> t]
     /\ UNCHANGED <<ws, saved>>
 
 \* migrate(prepare(s, t)): every object of s is re-hashed under t's algorithm and added to t under that digest
@@ -90,7 +90,7 @@ Next ==
     \/ \E p \in Paths, c \in Contents, how \in {"rewrite", "keep-mtime"} : Edit(p, c, how)
     \/ \E s \in Stores, how \in {"stage", "save", "upload", "file", "hardlink"} : Add(s, how)
     \/ \E s \in Stores, t \in Stores : Migrate(s, t)
-    \/ \E s \in Stores : Resave(s)
+    \/ \E s \in Stores, t \in Stores : Resave(s, t)
 
 Init == /\ ws \in [Paths -> Contents] /\ store = [s \in Stores |-> {}] /\ prot = [s \in Stores |-> {}]
         /\ row = [p \in Paths |-> NoRow] /\ saved = [s \in Stores |-> NoSaved] /\ act = [op |-> "Init"] /\ steps = 0
